@@ -257,6 +257,11 @@ class _Ob:
 
     def check(self, rid: str, props: set, cond: bool, where: str, fn: str, what: str, construct: str, nec: str) -> None:
         if self.pid in props:
+            if not cond and "restricted:unrecognised" in what:
+                # the obligation fails on a collection the domain did not understand (a mask or map outside the recognised idioms): that is
+                # "not read through", not evidence that candidates were dropped
+                self.col.undecidable(where, fn, "not understood: " + what, rule=rid)
+                return
             self.col.check(cond, where, fn, what, construct=construct, necessity=nec, rule=rid)
 
     def und(self, rid: str, props: set, where: str, fn: str, msg: str) -> None:
@@ -522,7 +527,7 @@ def _check_lb(ob: _Ob, comp: Computer, w: Write, is_sam: bool) -> None:
                      f"monotone closure LB(c) = MAX(LB(<PSUPER,SELF>)) [{tag}] (found {show_num(v)})", "closure",
                      "for a non-increasing game only supersets (and the row itself) give valid lower bounds; MIN or sub-coalitions are unsound, dropping SELF loosens below the superadditive bound")
             ob.check("B13", {"C07"}, okq and red == "MAX" and q.known is not False, where, fn,
-                     "closure is a MAX over a set that does not shrink with knowledge", "closure-polarity",
+                     "closure is a MAX over a set that does not shrink with knowledge" + (f" ({q.show()})" if isinstance(q, Coll) and q.restricted else ""), "closure-polarity",
                      "a candidate set that shrinks when knowledge grows lets a lower bound decrease")
             # closure must come after the split loop inside the same repetition
             splits = [x for x in comp.writes if x.col == "LB" and x is not w and x.outer and w.outer and x.outer[-1][1] == w.outer[-1][1]]
@@ -671,6 +676,9 @@ def _check_ub(ob: _Ob, comp: Computer, w: Write, is_sam: bool) -> None:
                          "ignoring a known superset gives a sound but looser upper bound")
                 if T.restricted and T.unrecognised:
                     ob.und("B7", {"C02"}, where, fn, f"T restricted by an unrecognised predicate: {T.why_restricted}")
+                if T.restricted and T.unrecognised and getattr(T, "why_restricted", "") in ("unrecognised", "unrecognised mask", "unrecognised map"):
+                    ob.und("B13", {"C07", "C04"}, where, fn, f"T is selected by a mask the domain does not understand: {T.why_restricted}")
+                    continue
                 ob.check("B13", {"C07"}, not T.restricted, where, fn,
                          f"the set of known supersets is not thinned out by a further predicate ({T.why_restricted})", "ub-polarity-restricted",
                          "a filter that depends on which other coalitions are known (e.g. 'minimal known supersets only') removes candidates when knowledge grows: an upper bound can increase")
